@@ -144,6 +144,17 @@ func (g *Gen) next0(s Snap, remaining int) Op {
 	switch kind {
 	case 0:
 		o := Op{Kind: "Send", Sender: r.Intn(3), Dest: r.Intn(3), Amount: int64(1 + r.Intn(400)), Fee: g.fee(), Token: r.Intn(4)}
+		if r.Chance(22) { // started from the EVM through the crossChain precompile: FX as value, or the registered coin's ERC-20
+			o.Kind = "SendP"
+			o.Token = []int{0, 3, 3}[r.Intn(3)]
+			if r.Chance(8) {
+				o.Fee = 0 // the precompile accepts a zero fee
+			}
+			if r.Chance(4) {
+				o.Amount = 3000 // more than the ERC-20 / FX balance
+			}
+			return o
+		}
 		switch x := r.Intn(100); {
 		case x < 3:
 			o.Token = 4
